@@ -101,6 +101,16 @@ func concatClosure(w *World) []*ssa.Function {
 }
 
 func runC14(w *World, r *Report) {
+	// ---- visits-all: every chunk contributes
+	r.Rule("C14.visits-all", "the loops over chunks, keys and groups in the concat functions are left only when exhausted or with an error", 8)
+	ruleLoopsTotal(w, r, "C14.visits-all", []*ssa.Function{
+		w.Fn("schema", "ConcatMessages"), w.Fn("schema", "concatMessageArray"), w.Fn("schema", "concatToolCalls"), w.Fn("schema", "ConcatMessageStream"),
+		w.Fn("internal", "ConcatItems"), w.Fn("internal", "concatMaps"), w.Fn("internal", "concatSliceValue"), w.Fn("internal", "toSliceValue"), w.Fn("compose", "concatStreamReader"),
+	}, map[string]string{
+		"schema.ConcatMessageStream: loop": "receive loop: left at io.EOF (end of stream = exhaustion) — C13.eof-identity / C04.failure-agreement decide the EOF test",
+		"compose.concatStreamReader: loop": "receive loop: left at io.EOF (end of stream = exhaustion)",
+	}, "a chunk (or a key / tool-call group of it) is dropped from the concatenated value: the result depends on how the producer split its output")
+
 	closure := concatClosure(w)
 	var names []string
 	for _, f := range closure {
